@@ -81,4 +81,9 @@ META = {
         text="Exploration: each generated case builds a real portfolio (delegations, unbonding and redelegation entries that share completion slices with another delegator, accrued rewards), involves source or target in a proposal in its deposit / voting / ended stage, migrates with one of five signature shapes and then lets time pass through the real staking end blocker; acceptance must follow the stated conditions and an accepted migration must move everything once.",
         note="Public keys are set on accounts directly (as after a first transaction).",
     ),
+    "C15": dict(
+        technique="model-based stateful property-based testing (rapid) of the governance module through the real message router and the real gov end blocker, with a reference model of deposits / statuses / deadlines / votes and an independent exact-rational tally over the staking state",
+        text="Exploration: generated histories of submit / deposit / vote / cancel / per-type parameter updates / deadline-aligned time steps over several concurrent proposals of different message types are compared step by step with a reference model: deposit books, activation minimum per type, voting period and quorum per type, refund-or-burn exactly once, all-or-nothing execution.",
+        note="Expedited proposals are outside the generated domain.",
+    ),
 }
